@@ -141,7 +141,8 @@ def sx(x):
 def sx_kind(d):
     if d["kind"] == "custom":
         c = d["custom"]
-        return ["custom", c["isbool"], c["clear"], c["isdef"], c["isdefval"]]
+        # a type whose IsBoolFlag method is present but answers false is, for the library, not a flag
+        return ["custom", c["isbool"] and not c.get("isboolfalse"), c["clear"], c["isdef"], c["isdefval"]]
     return [d["kind"]]
 
 
